@@ -219,8 +219,14 @@ impl FormatStringParser<'_> {
 
         if digits > 0 {
             // All the digits are valid due to the above checks, but the number
-            // may still be too large for a width.
-            Ok(Some((start[0..digits]).parse()?))
+            // may still be too large for a width: like printf(3), refuse what
+            // does not fit an int instead of writing blanks (almost) forever.
+            const MAX_WIDTH: usize = i32::MAX as usize;
+            let width: usize = (start[0..digits]).parse()?;
+            if width > MAX_WIDTH {
+                return Err(format!("field width {width} is too large").into());
+            }
+            Ok(Some(width))
         } else {
             Ok(None)
         }
